@@ -17,7 +17,7 @@ pub fn meta() -> Meta {
     Meta {
         id: "C20",
         level: "exploration",
-        rule: "(1) counting and table: read pairs with an exactly designed multiplicity histogram (for each designed (count c, n k-mers) a unique segment of n+k-1 letters is read c times, copies alternating between the two files and the two orientations) — every design from a family that puts 49/50/51 k-mers on the last bucket, leaves empty buckets inside, reaches counts 1..12, long tables (a segment seen 250 / 600 / exactly 1000 times, and segments seen 1001 and 1200 times, which the table must not list), and one made of reads of exactly k letters, of k+1 letters and of reads too short to hold a k-mer — histograms that are themselves a two-Poisson mixture of 30 000 k-mers (w0 in {0.8,0.9,0.93,0.95,0.97} x c in {3.5,4.3,4.85,5.5,6.5,8}: high error weight, low coverage, so that fits occur whose components cross above the fitted coverage), plus tilings of a genome with substitution errors and N runs; FASTQ files with an odd number of reads are written with CRLF line ends; k in {7,31,33} (thorough: + 15, 21, 63) x both strand modes; the real CoverageHistogram::new + fit_histogram (hook: truncated counts, per-k-mer multiplicities) and the `ska cov` CLI table are compared with the model's multiplicity of every distinct split k-mer. (2) cutoff rule: hooked find_cutoff on the grid w0 in {0.01,0.05..0.95,0.99} x c in {1,1.5,2,3,5,10,20,40,80} x every table length 1..100 (thorough 1..400) against an independent closed form; end to end the printed cutoff equals that function of the fitted parameters and 'Error' labels exactly the counts below it. (3) likelihood/gradient identity on the basis: every unit histogram e_i (i=1..120 plus 150,172,200,244,300,400,600,999; thorough 1..400 plus those) x 19 w0 (thorough 99) plus 20 weights within 5e-3 of 0 or 1 (1e-8 .. 5e-3 and their mirrors) x 12 c (thorough 71): hooked log_likelihood equals the two-Poisson mixture computed independently, hooked grad_ll equals its closed-form derivative (1e-9 relative) and the central difference of the real log_likelihood (1e-5); linearity is checked on composite histograms. Non-trivial = every grid point / designed read set.".into(),
+        rule: "(1) counting and table: read pairs with an exactly designed multiplicity histogram (for each designed (count c, n k-mers) a unique segment of n+k-1 letters is read c times, copies alternating between the two files and the two orientations) — every design from a family that puts 49/50/51 k-mers on the last bucket, leaves empty buckets inside, reaches counts 1..12, long tables (a segment seen 250 / 600 / exactly 1000 times, and segments seen 1001 and 1200 times, which the table must not list), and one made of reads of exactly k letters, of k+1 letters and of reads too short to hold a k-mer — histograms that are themselves a two-Poisson mixture of 30 000 k-mers (w0 in {0.8,0.9,0.93,0.95,0.97} x c in {3.5,4.3,4.85,5.5,6.5,8}: high error weight, low coverage, so that fits occur whose components cross above the fitted coverage), plus tilings of a genome with substitution errors and N runs; FASTQ files with an odd number of reads are written with CRLF line ends; every third designed read set is written as gzip in two members per file (lanes compressed one by one and concatenated); k in {7,31,33} (thorough: + 15, 21, 63) x both strand modes; the real CoverageHistogram::new + fit_histogram (hook: truncated counts, per-k-mer multiplicities) and the `ska cov` CLI table are compared with the model's multiplicity of every distinct split k-mer. (2) cutoff rule: hooked find_cutoff on the grid w0 in {0.01,0.05..0.95,0.99} x c in {1,1.5,2,3,5,10,20,40,80} x every table length 1..100 (thorough 1..400) against an independent closed form; end to end the printed cutoff equals that function of the fitted parameters and 'Error' labels exactly the counts below it. (3) likelihood/gradient identity on the basis: every unit histogram e_i (i=1..120 plus 150,172,200,244,300,400,600,999; thorough 1..400 plus those) x 19 w0 (thorough 99) plus 20 weights within 5e-3 of 0 or 1 (1e-8 .. 5e-3 and their mirrors) x 12 c (thorough 71): hooked log_likelihood equals the two-Poisson mixture computed independently, hooked grad_ll equals its closed-form derivative (1e-9 relative) and the central difference of the real log_likelihood (1e-5); linearity is checked on composite histograms. Non-trivial = every grid point / designed read set.".into(),
         assumptions: vec![
             "likelihood and gradient are linear in the histogram, so the unit histograms form a basis (checked on composites)".into(),
             "grid points within 1e-9 of a tie of the two components accept either neighbouring cutoff".into(),
@@ -172,9 +172,14 @@ fn real_cov<I: Int>(p1: &str, p2: &str, k: usize, rc: bool) -> Result<CovOut, St
     }
 }
 
+/// every third read set is written as gzip in two members per file (lanes compressed one by one and concatenated)
+static TWO_MEMBER_GZIP: std::sync::atomic::AtomicBool = std::sync::atomic::AtomicBool::new(false);
+
 fn check_readset(files: &[Reads; 2], k: usize, rc: bool, with_cli: bool) -> Result<bool, String> {
-    let p1 = scratch::write("c20_1.fastq", &fastq(&files[0]));
-    let p2 = scratch::write("c20_2.fastq", &fastq(&files[1]));
+    let two = TWO_MEMBER_GZIP.load(std::sync::atomic::Ordering::Relaxed);
+    let wr = |name: &str, text: Vec<u8>| if two { scratch::write(name, &scratch::gz_two_members(&text, 4)) } else { scratch::write(name, &text) };
+    let p1 = wr("c20_1.fastq", fastq(&files[0]));
+    let p2 = wr("c20_2.fastq", fastq(&files[1]));
     let (mult, table) = model_table(files, k, rc);
     let out = if k <= 31 { real_cov::<u64>(&p1, &p2, k, rc) } else { real_cov::<u128>(&p1, &p2, k, rc) }.map_err(|e| format!("cov panicked: {e}"))?;
     if out.mult != mult {
@@ -436,7 +441,12 @@ pub fn run(ctx: &Ctx, rep: &mut Report) {
                 if des.iter().any(|(_, n)| *n == 49) {
                     rep.corner("bucket_of_49_kmers");
                 }
+                TWO_MEMBER_GZIP.store(di % 3 == 1, std::sync::atomic::Ordering::Relaxed);
+                if di % 3 == 1 {
+                    rep.corner("read_files_as_two_member_gzip");
+                }
                 let verdict = check_readset(&files, k, rc, di % 2 == 0 || thorough);
+                TWO_MEMBER_GZIP.store(false, std::sync::atomic::Ordering::Relaxed);
                 if CROSSING_ABOVE_C.swap(0, std::sync::atomic::Ordering::Relaxed) > 0 {
                     rep.corner("fit_whose_components_cross_above_the_fitted_coverage");
                 }
